@@ -27,6 +27,7 @@ TUPLES = [(0, 0, 0, 0), (99999, 9998, 9998, 99), (10234, 5678, 6789, 9)]
 FIELDS = {"customer": (0, 100000), "project": (1, 10000), "device": (2, 10000), "version": (3, 100)}
 BOUND = {"customer": [0, 1, 9998, 9999, 99999], "project": [0, 1, 9998, 9999], "device": [0, 1, 9998, 9999], "version": [0, 1, 9, 10, 99]}
 ALPHA = "09- ()vx"
+CANON_MORE = ["00009-9999-9999-00 x (version 07)", "12345-0000-0001-10", "a (version 00)", "  spaced  name  (version 42)"]
 CANON = ["10234-5678-6789-09 Testname", "00000-0000-0000-00", "99999-9999-0001-99 a b", "Testname (version 09)",
          "x (version 07) y (version 10)", "00001-0002-0000-03 7"]
 
@@ -43,14 +44,19 @@ def cases(ctx):
             yield ("names", ni) + v
     for ni in range(1, len(NAMES)):
         yield ("nameonly", ni)
-    for ti in range(len(CANON)):
-        for pos in range(len(CANON[ti])):
+    canon = CANON if ctx.quick else CANON + CANON_MORE
+    for ti in range(len(canon)):
+        for pos in range(len(canon[ti])):
             yield ("nearmiss", ti, "del", pos, "")
             for ch in ALPHA:
                 yield ("nearmiss", ti, "sub", pos, ch)
     yield ("short", "")
     for a in ALPHA:
-        yield ("short", a)
+        if ctx.quick:
+            yield ("short", a)
+        else:
+            for b in ALPHA:
+                yield ("short", a + b)
     for which in ("prj", "dev"):
         for mask in range(128):
             for wi in range(3):
@@ -145,11 +151,13 @@ def run_case(ctx, case):
     if kind in ("nearmiss", "short"):
         if kind == "nearmiss":
             _, ti, op, pos, ch = case
-            t = CANON[ti]
+            t = (CANON + CANON_MORE)[ti]
             texts = [t[:pos] + ch + t[pos + 1:]]
         else:
             pre = case[1]
             texts = [pre] if pre == "" else [pre + "".join(s) for k in range(0, 4) for s in product(ALPHA, repeat=k)]
+            if len(pre) == 2:
+                texts = [pre[0]] + texts if pre[1] == ALPHA[0] else texts
         n = 0
         for text in texts:
             n += 1
